@@ -93,6 +93,10 @@ def gen(rng, idx=None, structs=None):
     rng.shuffle(blocks)
     for i, b in enumerate(blocks):
         b.tag = 'b%d' % i
+    if (idx % 5 == 3) if idx is not None else (rng.random() < 0.25):
+        # the blocks name the type through a path (fixed findings F33/F34)
+        for b in blocks:
+            b.self_ty = 'self::' + b.self_ty
     if sk in ('w6', 'w7'):
         # the struct's last parameter may be unsized: which blocks relax it (inline / where) is
         # planned by position, so that "only a later block relaxes" and "only the first" both occur
